@@ -321,7 +321,12 @@ def run_shard(spec):
                     V("gram_size_differs_from_fresh_equivalent", "Gram size %s vs %s in the fresh equivalent" % (rec.get("n_points"), fs.get("n_points")),
                       solve_index=k_solve, **wit)
                 fv = fs["results"].get("value_float")
-                if fv is not None and all(is_optimal_status(s) for s in fs["inner_status"]):
+                primal_after_heuristic = bool(op["opts"].get("dimension_reduction_heuristic")) and mode == "primal"
+                if primal_after_heuristic:
+                    # the primal value after a heuristic is only determined up to the heuristic tolerance and the
+                    # (solution-size relative) accuracy of the solver: judged by C14's band, not compared here
+                    counters["value_not_compared(primal after heuristic)"] = counters.get("value_not_compared(primal after heuristic)", 0) + 1
+                elif fv is not None and all(is_optimal_status(s) for s in fs["inner_status"]):
                     fam = oracles.solver_family(rec)
                     held, vio = oracles.TOL[fam]
                     sc = 1 + abs(fv)
